@@ -562,7 +562,7 @@ fn main() {
         &a,
     ));
     let rt = epkit::runtime(8);
-    let n_cases: u64 = a.pick(80, 1600);
+    let n_cases: u64 = a.pick(60, 1600);
     let per_lane: usize = a.pick(6, 8);
     let par: usize = a.pick(6, 12);
     rt.block_on(async {
